@@ -15,6 +15,13 @@ pub mod mpsc {
     }
     impl<T: View> UnboundedReceiver<T> {
         pub uninterp spec fn view(&self) -> Seq<T::V>;
+        // current queue state; if the channel is closed AND empty nothing will ever be delivered any more
+        pub uninterp spec fn closed_now(&self) -> bool;
+        pub uninterp spec fn empty_now(&self) -> bool;
+        #[verifier::external_body]
+        pub fn is_closed(&self) -> (r: bool) ensures r == self.closed_now(), (self.closed_now() && self.empty_now()) ==> self@.len() == 0 { unimplemented!() }
+        #[verifier::external_body]
+        pub fn is_empty(&self) -> (r: bool) ensures r == self.empty_now(), (self.closed_now() && self.empty_now()) ==> self@.len() == 0, self@.len() == 0 ==> true { unimplemented!() }
         #[verifier::external_body]
         pub fn recv(&mut self) -> (r: Option<T>)
             ensures
